@@ -92,6 +92,11 @@ def goal_src(g):
         return '%s(%s)' % (g[1], ', '.join(term_src(x) for x in g[2]))
     if k == 'closure':
         return 'closure { %s }' % ', '.join(goal_src(x) for x in g[1])
+    if k == 'twice':
+        # one goal VALUE used at two places of a conjunction (Rust-level combinator of the prelude)
+        r = g[1]
+        assert r[0] == 'rel'
+        return 'twice({ %s(%s) })' % (r[1], ', '.join('%s.clone()' % term_src(a) if a[0] in ('var', 'par') else 'lterm!(%s)' % term_src(a) for a in r[2]))
     if k == 'project':
         return 'project |%s| { %s }' % (', '.join(g[1]), ', '.join(goal_src(x) for x in g[2]))
     if k == 'for':
@@ -240,10 +245,29 @@ pub fn succ(u: T, v: T) -> Goal<TU, TE> {
 pub fn succ_head(u: T, v: T) -> Goal<TU, TE> {
     Goal::dynamic(Rc::new(Succ { u, v, mode: 1 }))
 }
+@@HELPERS_RS@@'''
+
+HELPERS_RS = '''
+/// `d` is introduced inside the closure body: d is one of lo, hi and one of a, b is d.
+pub fn pick(a: T, b: T, lo: T, hi: T) -> Goal<TU, TE> {
+    proto_vulcan_closure!(|d| {
+        member(d, [lo, hi]),
+        conde {
+            a == d,
+            b == d,
+        }
+    })
+}
+
+/// The same goal value solved twice in a row.
+pub fn twice(g: Goal<TU, TE>) -> Goal<TU, TE> {
+    let g2 = g.clone();
+    proto_vulcan!([g, g2])
+}
 '''
 
 
-PRELUDE = PRELUDE.replace('@@USER_RS@@', USER_RS)
+PRELUDE = PRELUDE.replace('@@USER_RS@@', USER_RS).replace('@@HELPERS_RS@@', HELPERS_RS)
 
 
 def emit_fn(name, prog, nparams, extra=None):
@@ -561,6 +585,8 @@ class Ref(object):
             return self.run_rel(g[1], [self.term(a, env) for a in g[2]], st, depth)
         if k == 'closure':
             return self.run_conj(g[1], st, env, depth)
+        if k == 'twice':
+            return self.run_conj([g[1], g[1]], st, env, depth)
         if k in ('loop', 'anyo'):
             self.infinite = True
             return self.run_conj(flat(g[1]), st, env, depth)      # one round; callers compare in 'subset' mode
@@ -663,6 +689,14 @@ class Ref(object):
         if name == 'cons':
             a, d, p = args
             return self.eq_goal(('cons', a, d), p, st)
+        if name == 'pick':
+            a, b, lo, hi = args
+            d = self.fresh('d')
+            out = []
+            for st1 in self.run_rel('member', [d, ('cons', lo, ('cons', hi, ('nil',)))], st, depth + 1):
+                out += self.eq_goal(a, d, st1)
+                out += self.eq_goal(b, d, st1)
+            return out
         if name == 'first':
             l, f = args
             return self.eq_goal(l, ('cons', f, self.fresh('t')), st)
